@@ -220,18 +220,27 @@ class Topology(ABC):
         """
         if name not in self.nodes.keys():
             raise TopologyException(f'Node {name} is not in this topology.')
-        for i in self.nodes[name].interface_list:
-            # disconnect if connected to a network service
-            peers = i.get_peers(itype=InterfaceType.ServicePort)
-            if peers:
-                if len(peers) == 1:
-                    # disconnect from its parent service
-                    self.get_parent_element(peers[0]).disconnect_interface(i)
-                else:
-                    raise TopologyException(f'Interface {i.name} has more than one peer, this is a model error.')
+        self._disconnect_from_services(self.nodes[name].interface_list)
 
         self.graph_model.remove_network_node_with_components_nss_cps_and_links(
             node_id=self._get_node_by_name(name=name).node_id)
+
+    def _disconnect_from_services(self, interfaces):
+        """
+        Disconnect each of the interfaces, and each of their sub-interfaces, from the network
+        service it is connected to (removing the matching ServicePort and the link).
+        """
+        for i in interfaces:
+            for ii in (i,) + tuple(i.interface_list):
+                # disconnect if connected to a network service
+                peers = ii.get_peers(itype=InterfaceType.ServicePort)
+                if peers:
+                    if len(peers) == 1:
+                        # disconnect from its parent service
+                        self.get_parent_element(peers[0]).disconnect_interface(ii)
+                    else:
+                        raise TopologyException(f'Interface {ii.name} has more than one peer, '
+                                                f'this is a model error.')
 
     def add_facility(self, *, name: str, node_id: str = None, site: str,
                      nstype: ServiceType = ServiceType.VLAN,
@@ -280,15 +289,7 @@ class Topology(ABC):
         if fac.type != NodeType.Facility:
             raise TopologyException(f'{name} is not a Facility node, cannot remove.')
 
-        for i in self.facilities[name].interface_list:
-            # disconnect if connected to a network service
-            peers = i.get_peers(itype=InterfaceType.ServicePort)
-            if peers:
-                if len(peers) == 1:
-                    # disconnect from its parent service
-                    self.get_parent_element(peers[0]).disconnect_interface(i)
-                else:
-                    raise TopologyException(f'Interface {i.name} has more than one peer, this is a model error.')
+        self._disconnect_from_services(self.facilities[name].interface_list)
 
         self.graph_model.remove_network_node_with_components_nss_cps_and_links(
             node_id=self._get_node_by_name(name=name).node_id)
